@@ -34,7 +34,7 @@ type progResult struct {
 
 func Run(r *vf.Run) {
 	bin := r.BuildBin("vlint", "./cmd/vlint", false)
-	nProg := r.Pick(36, 400)
+	nProg := r.Pick(36, 250)
 	nFuncs := r.Pick(36, 40)
 	nVec := 16
 	results := make([]progResult, nProg)
@@ -87,7 +87,7 @@ func Run(r *vf.Run) {
 		r.Inconclusive("%d of %d generated programs rejected by the compiler", discards, nProg)
 	}
 	r.Assume("claims are read through nilness.Result.Nilness inside the real runner (facts of package lib reach package p through the cache's vetx files); calls that panic are excluded, as the property only speaks of normally returning executions")
-	r.Finish(fns, nontriv, r.Pick(35, 500),
+	r.Finish(fns, nontriv, r.Pick(35, 300),
 		"each program = package p with ~36 generated functions returning pointers, slices, maps, interfaces (any, error), unsafe.Pointer, funcs or chans, built from nil checks, phis, swaps in loops, memory round trips, globals, helper calls within and across packages, assertions, type switches, conversions, slicing, append, recursion, closures; compiled and run on 16 seeded argument vectors; every normal return is compared with the claimed Outer/Inner nilness and every SA4023 report with the observed comparison results. non-trivial = functions with a claim other than MaybeNil that were observed returning normally")
 }
 
